@@ -1,13 +1,10 @@
 #!/bin/bash
-# runs every seeded change against the quick check of the property it breaks (scratch copies, see seedtest.sh),
+# runs every seeded change against the quick check of the property it breaks (scratch copies, see seedtest.sh), three at a time,
 # rewrites seeded/LAST_BATCH.txt, seeded/*/meta.json and the table in DESIGN.md section 11
 cd /verif
-out=seeded/LAST_BATCH.txt; : > $out.new
-for d in seeded/C*-*; do
-  s=$(basename $d); p=${s%%-*}
-  echo "=== $s" >> $out.new
-  ./seedtest.sh $s $p >> $out.new 2>&1
-done
-mv $out.new $out
-python3 seedmeta.py $out
+T=$(mktemp -d /var/tmp/qx_seedall.XXXXXX)
+ls -d seeded/C*-* | xargs -n1 basename | xargs -P 3 -I{} sh -c 's={}; p=${s%%-*}; { echo "=== $s"; ./seedtest.sh $s $p; } > '"$T"'/$s.txt 2>&1'
+cat $T/*.txt > seeded/LAST_BATCH.txt
+rm -rf $T
+python3 seedmeta.py seeded/LAST_BATCH.txt
 python3 seedtable.py
